@@ -714,7 +714,11 @@ def check(ctx):
     from . import c01, c05
     _nz1, srv1, _n1, put1, rem1, _p1 = c01._roles(ctx)
     with ctx.shared({'C01': 'C04.1', 'C05': 'C04.1'}):
-        c01._owner(ctx, srv1, put1, rem1)
+        # (finding F18 - the validation pass un-places an instance whose
+        # server left the cell without Server.remove, so the detached server
+        # and its ancestors keep counting it - is reported here as well:
+        # when the bucket returns, the cell's count is one too high)
+        c01._owner(ctx, srv1, put1, rem1, detached_exception=False)
         c05._model_removal(ctx, removal_rule='C04.1')
 
 
